@@ -7,6 +7,7 @@ import (
 	"sort"
 	"strings"
 	"sync"
+	"sync/atomic"
 	"time"
 
 	"github.com/syndtr/goleveldb/leveldb"
@@ -69,6 +70,7 @@ func c19Build(c *Ctx, h *c19Hist) (d *c19DB, skip string) {
 	o := h.Opts.Options()
 	d = &c19DB{st: stor.New(), o: o, m: kvmap{}, hist: map[string]map[string]bool{}, ever: map[string]bool{}, stats: map[string]int{}}
 	d.st.KeepOps(false)
+	d.st.ListOrder = int(h.Seed % 3) // Storage.List promises no order
 	var db *leveldb.DB
 	open := func() bool {
 		err, hung := crCall(crWdTimeout, func() (err error) { db, err = leveldb.Open(d.st, o); return })
@@ -494,7 +496,30 @@ func c19Recover(c *Ctx, once *crSigOnce, d *c19DB, img *stor.Stor, cs *c19Case, 
 		return "recover:manifest-" + cs.Manifest + ":" + oracle
 	}
 	var db *leveldb.DB
+	// a quarter of the cases: one read of a table file fails during Recover (a transient I/O error, not damage).
+	// Recover may give up with that error — then a second, undisturbed Recover has to succeed — or cope; either way
+	// the oracles below apply to what it finally returns.
+	var readFault, fired int32
+	if r.Chance(1, 4) {
+		nth := int32(1 + r.Intn(24))
+		readFault = nth
+		var seen int32
+		img.SetHooks(func(op stor.Op) stor.FaultMode {
+			if op.Kind == stor.OpRead && op.Fd.Type == storage.TypeTable && atomic.AddInt32(&seen, 1) == nth {
+				atomic.StoreInt32(&fired, 1)
+				return stor.FailNoEffect
+			}
+			return stor.NoFault
+		}, nil)
+	}
 	err, hung := crCall(crWdTimeout, func() (err error) { db, err = leveldb.Recover(img, d.o); return })
+	if readFault > 0 {
+		img.SetHooks(nil, nil)
+		c.Res.Count("read_fault", fmt.Sprintf("fired=%v recover-error=%v", atomic.LoadInt32(&fired) == 1, err != nil))
+		if _, isPanic := err.(*crPanicErr); err != nil && !hung && !isPanic && atomic.LoadInt32(&fired) == 1 {
+			err, hung = crCall(crWdTimeout, func() (err error) { db, err = leveldb.Recover(img, d.o); return })
+		}
+	}
 	if vers != nil {
 		c.Res.Count("B_rebuild", fmt.Sprintf("table-rebuilt=%v", rebuilt()))
 	}
